@@ -68,6 +68,7 @@ var catalogue = map[string]catEntry{
 	"add-const":              {false, "property text 'constant changes'; audit.go:205 iterates over the old constants only"},
 	"rename-prefix-variable": {false, "audit.go:111 '... other than renaming variables' (:132-134)"},
 	"drop-include":           {false, "the include list is not audited; only applicable when no audited position, extends clause or value of the file names the include: at most constants (audit.go:195 Warning 'Constant removed') and unused typedefs (not audited) go with it"},
+	"toggle-empty-throws":    {false, "spelling only: `m()` and `m() throws ()` both declare no exception; audit.go:302-303 / :348-354 speak of the number of exceptions"},
 	"add-extends":            {false, "audit.go:312 'It's fine to add inheritance, but not change it if it already exists'"},
 	"add-method-end":         {false, "DESIGN 'added methods'; audit.go:331 iterates over the old methods only"},
 	"add-service":            {false, "DESIGN 'added ... services'; audit.go:310 iterates over the old services only"},
@@ -83,6 +84,7 @@ var catalogue = map[string]catEntry{
 type ectx struct {
 	p     *idl.Program
 	fresh int
+	empty map[string]bool // methods spelled with an empty throws clause (spelling.go)
 }
 
 func (c *ectx) name(prefix string) string {
@@ -117,9 +119,10 @@ func (e *edit) String() string {
 }
 
 type enumerator struct {
-	p   *idl.Program
-	rng *rand.Rand
-	out []*edit
+	p     *idl.Program
+	rng   *rand.Rand
+	out   []*edit
+	empty map[string]bool
 }
 
 func (en *enumerator) add(op, file, site, kind string, keys []string, apply func(c *ectx) bool) *edit {
@@ -135,8 +138,8 @@ func (en *enumerator) add(op, file, site, kind string, keys []string, apply func
 // enumerate lists every applicable (operator, site) of program p.  Random
 // choices (the replacement type, the new prefix token ...) are drawn here, so
 // that the list is a pure function of (program, rng state).
-func enumerate(p *idl.Program, rng *rand.Rand) []*edit {
-	en := &enumerator{p: p, rng: rng}
+func enumerate(p *idl.Program, rng *rand.Rand, empty map[string]bool) []*edit {
+	en := &enumerator{p: p, rng: rng, empty: empty}
 	for _, f := range p.Files {
 		en.fileLevel(f)
 		nStruct, nSvc, nScope, nEnum := len(f.Structs()), len(f.Services()), len(f.Scopes()), len(f.Enums())
@@ -167,7 +170,7 @@ func enumerate(p *idl.Program, rng *rand.Rand) []*edit {
 	// inheritance chain, an inlined alias may need an include the file lacks)
 	var ok []*edit
 	for _, e := range en.out {
-		c := &ectx{p: p.Clone()}
+		c := &ectx{p: p.Clone(), empty: copyFlags(empty)}
 		if e.apply(c) && validateProgram(c.p) == nil {
 			ok = append(ok, e)
 		}
@@ -1542,13 +1545,17 @@ func (en *enumerator) serviceLevel(f *idl.File, di int, s *idl.Service, declPos 
 		}
 		if !m.Oneway && unusedException(p, f, m) != "" {
 			if m.Ret == nil && len(m.Throws) == 0 {
-				en.add("add-first-exception-to-void", fb, msite+" throws +", "throws/"+mpos+"/void-none", []string{tkey, mkey + "/ret", mkey + "/oneway"}, func(c *ectx) bool {
+				kind, quals := "throws/"+mpos+"/void-none", []string(nil)
+				if en.empty[emptyKey(fb, sn, mn)] {
+					kind, quals = kind+"/empty-clause", []string{"empty-throws-clause"}
+				}
+				en.add("add-first-exception-to-void", fb, msite+" throws +", kind, []string{tkey, mkey + "/ret", mkey + "/oneway"}, func(c *ectx) bool {
 					x := getM(c.p)
 					if x == nil || x.Oneway || x.Ret != nil || len(x.Throws) != 0 {
 						return false
 					}
 					return addExc(c, x)
-				})
+				}).Quals = quals
 			} else {
 				kind := "throws/" + mpos + "/" + retKind + fmt.Sprintf("-has%d", len(m.Throws))
 				en.add("add-exception-end", fb, msite+" throws +", kind, []string{tkey, mkey + "/ret", mkey + "/oneway"}, func(c *ectx) bool {
@@ -1573,6 +1580,31 @@ func (en *enumerator) serviceLevel(f *idl.File, di int, s *idl.Service, declPos 
 				x.Throws = nil
 				return true
 			})
+			en.add("remove-all-exceptions-of-void", fb, msite+" throws -all, clause kept: throws ()", "throws/"+mpos+"/void-"+n+"/leaving-empty-clause", []string{tkey, mkey + "/ret", mkey + "/oneway"}, func(c *ectx) bool {
+				x := getM(c.p)
+				if x == nil || x.Ret != nil || len(x.Throws) == 0 {
+					return false
+				}
+				x.Throws = nil
+				c.empty[emptyKey(fb, sn, mn)] = true
+				return true
+			}).Quals = []string{"empty-throws-clause"}
+		}
+		if !m.Oneway && len(m.Throws) == 0 {
+			// the other spelling of "no exceptions"
+			dir := "add-clause"
+			if en.empty[emptyKey(fb, sn, mn)] {
+				dir = "remove-clause"
+			}
+			en.add("toggle-empty-throws", fb, msite+" throws () "+dir, "throws/"+mpos+"/"+retKind+"/"+dir, []string{tkey, mkey + "/ret", mkey + "/oneway"}, func(c *ectx) bool {
+				x := getM(c.p)
+				if x == nil || x.Oneway || len(x.Throws) > 0 {
+					return false
+				}
+				k := emptyKey(fb, sn, mn)
+				c.empty[k] = !c.empty[k]
+				return true
+			}).Quals = []string{"empty-throws-clause"}
 		}
 		for ti, t := range m.Throws {
 			ti, t := ti, t
